@@ -48,7 +48,7 @@ theorem c19_step_only_under_lock (tr : List Ev) (s : State) (h : Exec tr s) (hq 
     (hu : s.srvUp = true) (hm : s.sim.phase = .inStep) : s.owner = some .I := by
   have i := exec_inv h hq
   have hp := i.stepP.mp hm
-  have hc : critI s.ipc = true := by simp [hp, critI]
+  have hc : critI s.ipc = true := by rcases hp with hp | hp <;> simp [hp, critI]
   have hl : s.ilock = true := by
     cases hl : s.ilock with
     | true => rfl
@@ -124,7 +124,7 @@ theorem c19_serialise_at_boundary_partial (pre post : List Ev) (s0 s : State)
   | atBoundary => rfl
   | inStep =>
     have hst := i.stepP.mp hp
-    have hc : critI s.ipc = true := by simp [hst, critI]
+    have hc : critI s.ipc = true := by rcases hst with hst | hst <;> simp [hst, critI]
     have hu : s.srvUp = true := by
       cases hu : s.srvUp with
       | true => rfl
@@ -195,7 +195,8 @@ theorem c19_no_deadlock (tr : List Ev) (s : State) (h : Exec tr s) (hq : s.racy 
         · exact ⟨.iSetFlag, by simp [step]⟩
         · exact ⟨.iStepBegin, by simp [step]⟩
         · exact ⟨.iStepEnd, by simp [step]⟩
-        · exact ⟨.iUnlock, by simp [step, hl]⟩
+        · exact ⟨.iHbBegin, by simp [step]⟩
+        · exact ⟨.iHbEnd, by simp [step]⟩
   case holding => exact ⟨.sSerBegin, by simp [step]⟩
   case serialising => exact ⟨.sSerEnd, by simp [step]⟩
   case serialised => exact ⟨.sClrNC, by simp [step]⟩
@@ -335,6 +336,22 @@ theorem c19_serialisation_is_inside_the_critical_section (tr : List Ev) (s : Sta
   · exact ⟨i.ownS.mpr (by simp [hs, critS]), i.nc.mpr (by simp [hs, ncHigh])⟩
   · exact ⟨i.ownS.mpr (by simp [hs, critS]), i.nc.mpr (by simp [hs, ncHigh])⟩
 
+/-! ### the heartbeat belongs to the critical section -/
+
+/-- `reb_run_heartbeat` (the user callback may change masses, add or remove particles, synchronize) runs, once the server
+exists, only while the integrator owns the mutex; hence the server never serialises a simulation the heartbeat is in the middle
+of modifying (`phase = inStep` covers `inHb`, see `c19_serialise_never_mid_step`).  A loop that released the mutex before its
+heartbeat produces traces with `iHbBegin` after `iUnlock`, which are not executions of this model -/
+theorem c19_heartbeat_only_under_lock (tr : List Ev) (s : State) (h : Exec tr s) (hq : s.racy = false)
+    (hu : s.srvUp = true) (hb : s.ipc = .inHb) : s.owner = some .I ∧ s.sim.phase = .inStep ∧ s.spc ≠ .serialising := by
+  have i := exec_inv h hq
+  have hp : s.sim.phase = .inStep := i.stepP.mpr (Or.inr hb)
+  have ho := c19_step_only_under_lock tr s h hq hu hp
+  refine ⟨ho, hp, ?_⟩
+  intro hs
+  have := i.ownS.mpr (by simp [hs, critS])
+  simp_all
+
 /-! ### the screenshot handshake (output.c:273-323) -/
 
 /-- `reb_simulation_output_screenshot`, called from a heartbeat inside a locked iteration, gives the mutex away while it waits
@@ -356,8 +373,8 @@ theorem c19_screenshot_wait_is_at_a_boundary (tr : List Ev) (s : State) (h : Exe
 
 /-- a complete iteration with a screenshot taken in its heartbeat and a `/simulation` request served meanwhile -/
 example : (run init [.xStart, .iEnter, .iChkBegin, .iChkEnd true, .iSeeSrv true, .iSeeNC0, .iLock, .iSetFlag, .iStepBegin,
-    .iStepEnd, .iShotUnlock, .sReq, .sSetNC, .sLock, .sSerBegin, .sSerEnd, .sClrNC, .sUnlock, .sSent, .sStatic,
-    .iShotLock, .iUnlock, .iClrFlag]).map (fun s => (s.ipc, s.served, s.sim, s.racy, s.owner))
+    .iStepEnd, .iHbBegin, .iShotUnlock, .sReq, .sSetNC, .sLock, .sSerBegin, .sSerEnd, .sClrNC, .sUnlock, .sSent, .sStatic,
+    .iShotLock, .iHbEnd, .iUnlock, .iClrFlag]).map (fun s => (s.ipc, s.served, s.sim, s.racy, s.owner))
     = some (.unlocked, 1, boundary 1 1, false, none) := by decide
 
 /-! ### what an accepted trace means -/
@@ -449,6 +466,13 @@ theorem c19_no_nonreentrant_libc :
 /-- every `static` non-const object declared in the sources is on the allow-list -/
 theorem c19_static_objects_allowed :
     staticMutable.all (fun d => allowStatics.contains d) = true := by decide +kernel
+
+/-- `reb_simulation_save_to_stream` is called by the server on the LIVE simulation: the only field it may assign is the documented
+IAS15 compression, and it hands `r` to nothing but the allow-listed routines (anchored mechanism "serialisation itself must not
+change the evolving state", output.c:475-495; extracted from the source every run) -/
+theorem c19_serialisation_writes_allowed :
+    saveWrites.all (fun w => allowSaveWrites.contains w) = true ∧ saveCalls.all (fun f => allowSaveCalls.contains f) = true ∧
+    2000 ≤ saveBodyLength := by decide +kernel
 
 /-- the extraction saw the library: objects, the interrupt flag, the libc references the
 protocol relies on, the re-entrant random generator -/
